@@ -366,10 +366,15 @@ func registerIntrinsics(e *Engine) {
 		re := a[0].(OpaqueV).Native.(*regexp.Regexp)
 		s, ok1 := StrConcrete(a[1].(StrV))
 		r, ok2 := StrConcrete(a[2].(StrV))
-		if !ok1 || !ok2 {
-			e.fail("ReplaceAllString with symbolic argument")
+		if ok1 && ok2 {
+			e.setResult(st, c, e.ConcreteStr(re.ReplaceAllString(s, r)))
+			return nil
 		}
-		e.setResult(st, c, e.ConcreteStr(re.ReplaceAllString(s, r)))
+		// a purely literal expression with a template that expands to itself is a string replacement
+		if lit, complete := re.LiteralPrefix(); ok2 && complete && lit != "" && re.ReplaceAllString(lit, r) == r {
+			return e.strReplaceAll(st, c, a[1].(StrV), e.ConcreteStr(lit), e.ConcreteStr(r))
+		}
+		e.cutOutside(st, "regexp.ReplaceAllString on a symbolic string ("+re.String()+")")
 		return nil
 	}
 	I["(*regexp.Regexp).Split"] = func(e *Engine, st *State, c ssa.CallInstruction, a []Value) []*State {
@@ -377,7 +382,8 @@ func registerIntrinsics(e *Engine) {
 		s, ok := StrConcrete(a[1].(StrV))
 		n := a[2].(*Term)
 		if !ok || n.Op != OpConst {
-			e.fail("Regexp.Split with symbolic argument")
+			e.cutOutside(st, "regexp.Split on a symbolic string ("+re.String()+")")
+			return nil
 		}
 		parts := re.Split(s, int(n.SignedVal()))
 		el := make([]Value, len(parts))
@@ -787,3 +793,11 @@ func (e *Engine) newError(st *State, msg string) Value {
 }
 
 func init() { _ = fmt.Sprint; _ = strings.Contains }
+
+// cutOutside abandons a path that leaves what the engine models; it is counted
+// and listed in the evidence as outside the claim (not an error, not a verdict).
+func (e *Engine) cutOutside(st *State, why string) {
+	e.addEvent(Event{Kind: "outside", Label: why})
+	e.Outside[why]++
+	st.done = true
+}
